@@ -19,6 +19,7 @@ def main():
     ap.add_argument("--all-checks", action="store_true")
     ap.add_argument("--only")
     ap.add_argument("--seeded", action="store_true")
+    ap.add_argument("--benign", action="store_true")
     ap.add_argument("--tier", default="quick")
     ap.add_argument("--skip-baseline", action="store_true")
     a = ap.parse_args()
@@ -28,12 +29,15 @@ def main():
         for d in sorted(os.listdir(sd)) if os.path.isdir(sd) else []:
             meta = json.load(open(os.path.join(sd, d, "meta.json")))
             items.append({"name": d, "expected": meta["expected_checks"], "patch": os.path.join(sd, d, "patch.diff")})
+    elif a.benign:
+        for m in json.load(open(os.path.join(HERE, "benign", "index.json"))):
+            items.append({"name": m["name"], "expected": [], "patch": os.path.join(HERE, "benign", m["name"] + ".diff")})
     else:
         for m in json.load(open(os.path.join(HERE, "mutants", "index.json"))):
             items.append({"name": m["name"], "expected": m["expected"], "patch": os.path.join(HERE, "mutants", m["name"] + ".diff")})
     if a.only:
         items = [i for i in items if a.only in i["name"]]
-    out_path = os.path.join(HERE, "results_seeded.json" if a.seeded else "results.json")
+    out_path = os.path.join(HERE, "results_seeded.json" if a.seeded else "results_benign.json" if a.benign else "results.json")
     results = json.load(open(out_path)) if os.path.exists(out_path) and a.only else {}
     for it in items:
         wt = tempfile.mkdtemp(prefix="st-", dir="/tmp")
@@ -60,7 +64,8 @@ def main():
         finally:
             subprocess.run(["git", "-C", "/repo", "worktree", "remove", "--force", wt])
         results[it["name"]] = rec
-        print(it["name"], "baseline_ok=%s" % rec.get("baseline_ok"), "caught_by=%s" % rec.get("caught_by"), "missed=%s" % [c for c in it["expected"] if c not in rec.get("caught_by", [])], flush=True)
+        rec["alarms"] = [c for c, v in rec["checks"].items() if v["rc"] != 0]
+        print(it["name"], "baseline_ok=%s" % rec.get("baseline_ok"), "alarms=%s" % rec["alarms"] if a.benign else "", "caught_by=%s" % rec.get("caught_by"), "missed=%s" % [c for c in it["expected"] if c not in rec.get("caught_by", [])], flush=True)
         json.dump(results, open(out_path, "w"), indent=1)
     # clean the replays written while running against mutants
     import shutil
